@@ -158,6 +158,22 @@ theorem reader_history_never_lies (A : AEAD) (hlen : ∀ k n m, (A.sealSeg k n m
   rw [segments_flatten css pt h56] at this
   exact this
 
+/-- **reader_history_ends_only_at_the_end.** … and on the same reader, in any such history, a `Read` answers a
+clean EOF only at or behind the true end of the plaintext: `lastVerified` is set by a SUCCESSFUL
+authentication of the last segment only, so a failed one — earlier in the history — never licenses a clean
+end later (the seeded change C16-4 moved the assignment in front of `cipher.Open`). -/
+theorem reader_history_ends_only_at_the_end (A : AEAD) (hlen : ∀ k n m, (A.sealSeg k n m).length = m.length + tagLen)
+    (css key : Nat) (pre : Bytes) (pt : Bytes) (keyOf : Bytes → Nat) (h56 : 56 < css)
+    (ideal : IdealFor A key pre (segments css pt)) (ct : Bytes) (ops : List ROp) (p : Nat)
+    (h : (p, RRes.eof) ∈ rRun A keyOf true true css ct ops {}) : pt.length ≤ p := by
+  have h0 : RInvV css ct (segments css pt) {} := by
+    refine ⟨?_, ?_⟩
+    · intro j hj; cases hj
+    · intro hv; cases hv
+  have := rRun_eof_sound A hlen css key pre (segments css pt) keyOf h56 (segments_layout css pt h56) ideal ct ops {} h0 p h
+  rw [segments_flatten css pt h56] at this
+  exact this
+
 /-- another part's ciphertext, or a part header whose DEK does not unwrap to this part's key: the reader
 derives a key under which nothing was sealed, and no segment opens -/
 theorem wrong_key_opens_nothing (A : AEAD) (key : Nat) (pre : Bytes) (segs : List Bytes) (ideal : IdealFor A key pre segs)
